@@ -855,6 +855,16 @@ class Machine(Interp):
         # modular reasoning: use the callee's contract when one is registered for modular use
         if self.registry is not None and isinstance(f.node, ast.FunctionDef):
             c = self.registry.modular_contract(f.qual)
+            if c is not None and f.qual == getattr(self, "unit_target_qual", None) and self.depth == 0:
+                c = None  # the function under verification is always executed, never replaced by a contract of its own
+            # assumed stubs (``always_modular``) are scoped to the contract module they were written for (or that imports
+            # them by name): importing some contract of another property must not switch that property's stubs on here
+            if c is not None and getattr(c, "always_modular", False) and not self.modular and c.__module__ != getattr(self, "unit_module", c.__module__):
+                import sys as _sys
+
+                um = _sys.modules.get(getattr(self, "unit_module", ""))
+                if um is None or getattr(um, c.__name__, None) is not c:  # imported by name = switched on deliberately
+                    c = None
             if c is not None and c.key not in self.skip_contract_for and (self.modular or getattr(c, "always_modular", False)):
                 return self.apply_contract(c, f, args, kwargs, node)
         if self.depth > MAX_CALL_DEPTH:
